@@ -649,6 +649,25 @@ func (env *SpecEnv) evalCall(x *ECall) specVal {
 			return env.iterKey(env.evalTerm(x.Args[0]))
 		case "iteridx":
 			return env.iterIdx(env.evalTerm(x.Args[0]))
+		case "shapeeq":
+			// scalareq plus: reference leaves are nil in both or in neither, slices have equal lengths
+			a, b := env.eval(x.Args[0]), env.eval(x.Args[1])
+			la, lb := a.v.leaves(nil), b.v.leaves(nil)
+			if len(la) != len(lb) {
+				specFail("shapeeq: different shapes")
+			}
+			var parts []*Term
+			for i := range la {
+				switch la[i].Sort {
+				case SStr, SInt, SBool:
+					parts = append(parts, c.Eq(la[i], lb[i]))
+				case SRef:
+					parts = append(parts, c.Eq(c.Eq(la[i], c.Nil()), c.Eq(lb[i], c.Nil())))
+				case SSlice:
+					parts = append(parts, c.Eq(c.SLen(la[i]), c.SLen(lb[i])), c.Eq(c.Eq(c.SArr(la[i]), c.Nil()), c.Eq(c.SArr(lb[i]), c.Nil())))
+				}
+			}
+			return specVal{v: leaf(c.And(parts...)), t: types.Typ[types.Bool]}
 		case "scalareq":
 			// equality of the scalar (string / integer / boolean / time) leaves of two struct values; references and
 			// slices are ignored (deep copies preserve scalars exactly)
@@ -674,11 +693,11 @@ func (env *SpecEnv) evalCall(x *ECall) specVal {
 			return specVal{v: v.v, t: env.resolveType(ts.Val)}
 		case "loglen":
 			return specVal{v: leaf(u.logLen(env.st)), t: types.Typ[types.Int]}
-		case "logverb", "logobj", "lognamespaced", "logns", "logtype":
+		case "logverb", "logobj", "lognamespaced", "logns", "logtype", "logsent", "logkeyns", "logkeyname":
 			k := env.evalTerm(x.Args[0])
-			f := map[string]string{"logverb": "verb", "logobj": "obj", "lognamespaced": "nsd", "logns": "ns", "logtype": "typ"}[id.Name]
+			f := map[string]string{"logverb": "verb", "logobj": "obj", "lognamespaced": "nsd", "logns": "ns", "logtype": "typ", "logsent": "sent", "logkeyns": "kns", "logkeyname": "kname"}[id.Name]
 			var t types.Type
-			if id.Name == "logverb" || id.Name == "logns" {
+			if id.Name == "logverb" || id.Name == "logns" || id.Name == "logkeyns" || id.Name == "logkeyname" {
 				t = types.Typ[types.String]
 			}
 			return specVal{v: leaf(c.Select(u.logArr(env.st, f, logFieldSort(f)), k)), t: t}
